@@ -87,6 +87,10 @@ class Scheduler:
 
     # -- called by workers ----------------------------------------------------
     def yield_point(self, tid, what, wants=None):
+        if tid in self.waiting:
+            # re-entrant call (e.g. a finaliser such as ATP_Store.__del__ run by the garbage collector while this
+            # thread is parked here): not a scheduling point
+            return
         with self.cv:
             self.waiting[tid] = wants
             self.turn = None
@@ -106,7 +110,7 @@ class Scheduler:
             return local
 
         def glob(frame, event, arg):
-            if event == "call" and frame.f_code.co_filename.endswith(targets):
+            if event == "call" and frame.f_code.co_filename.endswith(targets) and frame.f_code.co_name != "__del__":
                 return local
             return None
         return glob
@@ -133,6 +137,17 @@ class Scheduler:
 
     # -- the scheduling loop ----------------------------------------------------
     def run(self, fns, max_steps=5000):
+        import gc
+        gc.collect()
+        was_enabled = gc.isenabled()
+        gc.disable()          # finalisers of earlier worlds must not run inside a traced worker
+        try:
+            return self._run(fns, max_steps)
+        finally:
+            if was_enabled:
+                gc.enable()
+
+    def _run(self, fns, max_steps=5000):
         n = len(fns)
         threads = [threading.Thread(target=self._worker, args=(i, fns[i]), daemon=True) for i in range(n)]
         for t in threads:
